@@ -11,6 +11,8 @@ CLAIMED = {
          "simulated clock and network; timers armed by the code under test fire 1us..3ms late (tape-chosen), as real timers do; UDP: only the first association of a client is judged"),
  "C17": ("§6 C17", "Seeded simulation of the real throttle handler and golang.org/x/time/rate on the bubble clock with 1..16 concurrent connections sharing the total limiter; every read reaching a client socket is timestamped exactly and checked against burst + rate*T per connection and in total, first read not before latency, stream intact.",
          "bound is measured from the first read attempt of the connection (resp. of any connection for the total limiter); 0.05 byte slack for float rounding in x/time/rate"),
+ "C13": ("§6 C13", "Seeded simulation of the real ListenerWrapper (accept loop, handler goroutines, connChan hand-off, shutdown draining) with mixes of terminal / fall-through / failing / TLS-terminated connections, slow consumers, connChan capacities 1..16, temporary accept errors and Close at arbitrary instants; oracle: exactly-once census, byte-exact replay through the poisoning pool, TLS connection state, closure of consumed/rejected connections, Accept reporting closure, no goroutine left, bounded liveness after Close.",
+         "connection classes are decided by the first stream byte through spec matchers plus the real tls matcher/handler; GOMAXPROCS is set per run to choose the connChan capacity"),
 }
 NA = {
  "C07": "pure function of the ClientHello bytes (differential input testing against crypto/tls): no schedule, clock, fault or interleaving for a simulator to decide; its one schedule-dependent clause is exercised under C06",
@@ -18,7 +20,7 @@ NA = {
  "C15": "Caddyfile->JSON adaptation and JSON round trip are pure single-threaded functions of the configuration text",
  "C18": "FromBytes/ToBytes inverse laws are pure functions of byte strings",
 }
-PENDING = ["C03","C04","C06","C08","C09","C10","C11","C12","C13","C16"]
+PENDING = ["C03","C04","C06","C08","C09","C10","C11","C12","C16"]
 m = {
  "version": 1,
  "setup_cmd": "./check build",
